@@ -8,7 +8,7 @@ for spec in "$@"; do
   wt=/tmp/wt/r$SUF$id
   rm -rf $wt; git -C /repo worktree prune
   git -C /repo worktree add -q --detach $wt HEAD || { echo "$id worktree failed" >> $R/logs/try.out; continue; }
-  git -C $wt apply $R/$id/OUT/patch.diff || { echo "$id patch does not apply" >> $R/logs/try.out; continue; }
+  git -C $wt apply $R/$id/OUT/patch.diff || git -C $wt apply -3 $R/$id/OUT/patch.diff || { echo "$id patch does not apply" >> $R/logs/try.out; continue; }
   for chk in ${checks//,/ }; do
     (cd /verif && VERIF_REPO=$wt bin/check $chk --tier quick) > $R/logs/try_${id}_$chk.log 2>&1
     echo "$id $chk -> exit $? $(grep -c VIOLATION $R/logs/try_${id}_$chk.log) violation lines" >> $R/logs/try.out
